@@ -77,7 +77,17 @@ let obs_of_string tok : tx_obs =
 let run_tx_pred toks =
   match split_bar [] toks with
   | ([initial; max], obs) ->
-    if c19_ok (z_of_string initial) (z_of_string max) (List.map obs_of_string obs) then "OK" else "FAIL c19_ok"
+    let view = List.map (fun tok ->
+        match String.split_on_char '/' tok with
+        | [out; _; ring; _; _] ->
+          let o = if String.length out > 0 && out.[0] = 'G' then TxGrow None else TxNone in
+          (match String.split_on_char ':' ring with
+           | [l; h] -> ((o, z_of_string l), z_of_string h)
+           | _ -> failwith "tx_pred: bad ring")
+        | _ -> failwith ("tx_pred: bad observation " ^ tok)) obs in
+    if not (c19_ok (z_of_string initial) (z_of_string max) (List.map obs_of_string obs)) then "FAIL c19_ok"
+    else if not (c19_grow_ok view) then "FAIL c19_grow_ok"
+    else "OK"
   | _ -> failwith "tx_pred: bad case"
 
 let dispatch = function
